@@ -100,7 +100,7 @@ pub fn replay(case: &Value) -> Result<(), String> {
 }
 
 pub fn run(ctx: &Ctx, rep: &mut Report) {
-    if !cfg!(feature = "allfeat") {
+    if !cfg!(feature = "fz") {
         rep.notes.push("zeroize feature off in this build: C16 not applicable to this configuration".into());
         return;
     }
